@@ -448,6 +448,22 @@ class Inliner:
             m = self.prog.class_attr(cls, f.attr)
             if isinstance(m, DefRef) and isinstance(m.node, ast.FunctionDef):
                 target, recv = m, f.value
+        elif isinstance(f, ast.Attribute) and isinstance(f.value, ast.Call) and isinstance(f.value.func, ast.Name) and f.value.func.id == "super" and not f.value.args \
+                and cls is not None:
+            # super()._helper(...): a method of a base class, run on this object. Only for names the class does not define itself
+            # (then super() and self find the same function).
+            m = None
+            for c in self.prog.mro(cls):
+                if isinstance(c, DefRef) and c.node is not cls and f.attr in self.prog.methods_of(c.node):
+                    m = DefRef(f"{c.qualname}.{f.attr}", self.prog.methods_of(c.node)[f.attr])
+                    break
+            if m is not None:
+                if isinstance(m, DefRef) and isinstance(m.node, ast.FunctionDef) and not any(isinstance(d, ast.Name) and d.id in ("staticmethod", "classmethod") for d in m.node.decorator_list):
+                    owner = call
+                    while owner is not None and not isinstance(owner, (ast.FunctionDef, ast.AsyncFunctionDef)):
+                        owner = getattr(owner, "_parent", None)
+                    me = (func_params(owner) or ["self"])[0] if owner is not None else "self"
+                    target, recv = m, ast.copy_location(ast.Name(id=me, ctx=ast.Load()), f.value)
         elif isinstance(f, ast.Attribute):
             r = self.prog.resolve_expr(module, f)
             if isinstance(r, DefRef) and isinstance(r.node, ast.FunctionDef):
